@@ -371,4 +371,31 @@ def sf_unchanged_view(ev, fr):
     return VBool(z3.And(cs))
 
 
+def sf_wsum(ev, fields, lo, hi):
+    """sum of the declared widths (ghost_w) of the Bits fields fields[lo:hi] (list of (name, field) pairs);
+    defined by its unfolding at the lower end"""
+    from .values import tuple_parts
+    arr = z3.Select(ev.st.heap['lat'], fields.z)
+    gw = ev.st.heap['Bits.ghost_w']
+    f = z3.Function('wsum', arr.sort(), gw.sort(), T.I, T.I, T.I)
+    key = ('wsum', arr.get_id(), gw.get_id())
+    if key not in ev.eng._facts_added:
+        ev.eng._facts_added.add(key)
+        a, b = z3.Ints('a!ws b!ws')
+        w_a = z3.Select(gw, T.Val.rval(tuple_parts(z3.Select(arr, a), 2)[1][1]))
+        def fa(vs, body, pats):
+            try:
+                return z3.ForAll(vs, body, patterns=pats)
+            except z3.Z3Exception:
+                return z3.ForAll(vs, body)
+        ev.eng.extra_hyps.append(fa([a, b], z3.Implies(a >= b, f(arr, gw, a, b) == 0), [f(arr, gw, a, b)]))
+        ev.eng.extra_hyps.append(fa([a, b], z3.Implies(a < b, f(arr, gw, a, b) == w_a + f(arr, gw, a + 1, b)),
+                                    [f(arr, gw, a, b)]))
+    return VInt(f(arr, gw, ev.eng.as_int(lo)[0], ev.eng.as_int(hi)[0]))
+
+
+def sf_hasattr_bit_count(ev, f):
+    return VBool(z3.Select(ev.st.heap['Bits.bit_count?'], f.z))
+
+
 SPECFUNCS = {k[3:]: v for k, v in list(globals().items()) if k.startswith('sf_')}
